@@ -139,14 +139,14 @@ target(P + "_obsolete_packs", params=dict(packs=Seq(PACKT)), modifies=["g.presen
        note="never touches the files of a pack that was not handed to it")
 
 # ---- allocate: a pack enters the in-memory list (and so the next pack-names) only when all its files are in place
-assumed("self.ensure_loaded", modifies=["self._names", "self._packs_at_load"],
+LOADED4 = assumed("self.ensure_loaded", local=True, modifies=["self._names", "self._packs_at_load"],
         requires=lambda c: memory_names_present(c, c.self._names),
         ensures=lambda c: memory_names_present(c, c.self._names), raises={"Exception": "unchanged"},
         note="loading pack-names adds names read from disk: complete by the rely (other writers keep 'listed => present')")
 assumed("self.add_pack_to_memory", result=NONE, raises={"Exception": "unchanged"}, note="in-memory index bookkeeping")
 pure("tuple")
 exceptions(BzrError="Exception")
-target(P + "allocate", params=dict(a_new_pack=PACKT), modifies=["self._names", "self._packs_at_load"],
+target(P + "allocate", params=dict(a_new_pack=PACKT), modifies=["self._names", "self._packs_at_load"], local_contracts=[LOADED4],
        requires=lambda c: And(memory_names_present(c, c.self._names),
                               # the caller has finished the pack: its pack file and indices are renamed into place
                               In(attr(c.a_new_pack, "name"), c.g.present)),
